@@ -186,6 +186,12 @@ def run(cx):
         ob.require(len(w) == 1, "rpc-layer/inventory-evaluated", "C17.6 could not be evaluated", "anemo::rpc")
         for v in bad:
             ob.fail("refuted", "rpc-layer/" + v.key.split("rpc-panic/", 1)[-1], "remote-reachable panic in the typed-RPC layer: " + str(v.msg)[:300], v.construct, v.where)
+        # ... and its decoders stay bounded by the bytes actually received: the built-in codecs call only the slice-based
+        # (de)serialisers (C17.8) - a reader-based one pre-allocates what a length prefix announces
+        w8 = [x for x in sub.obs if x.oid == "C17.8"]
+        ob.count(sum(x.evals for x in w8))
+        bad8 = [v for x in w8 for v in x.violations]
+        ob.require(len(w8) == 1 and not bad8, "rpc-layer/bounded-decoders", "a peer-controlled length can drive an allocation in the typed-RPC codecs: " + "; ".join(str(v.msg) for v in bad8)[:300], "anemo::rpc::codec")
 
     with cx.ob("C06.1d", "R-SHAPE", "untrusted header bytes are decoded by the derived serde impls of the raw header types only - no custom (de)serialisation hook runs on them (C07.4 re-evaluated)") as ob:
         from . import c07
@@ -256,6 +262,7 @@ def run(cx):
         sites = select_sites(prog, start)
         ob.floor(sites, 1, "select! in the handler loop", exact=True)
         site = sites[0]
+        check_no_select_preconditions(ob, prog, start, "loop")          # (an arm switched off by a condition would not see its errors)
         want = {"Connection::accept_uni": "ignore", "Connection::accept_bi": "spawn", "Connection::read_datagram": "ignore", "JoinSet::join_next": "join"}
         ob.require(len(site["arms"]) == 4, "loop/arms", f"select! arms: {site['polled']}", start.path)
 
